@@ -9,7 +9,7 @@ From NadaV.PyMini Require Import PyMini.
 From NadaV.Gen Require GenScalar.
 From NadaV.Model Require Import Rules Corr Mir Surface Trace Compile.
 From NadaV.Spec Require Import TypingSpec FoldSpec Denote.
-From NadaV.Proofs Require Import Finite C02Proofs C06Proofs CompileProofs ScalarInv C02Rules C04Rules C06Program.
+From NadaV.Proofs Require Import Finite C02Proofs C06Proofs CompileProofs ScalarInv C02Rules C02Program C04Rules C06Program.
 Import ListNotations.
 Open Scope string_scope.
 Open Scope Z_scope.
@@ -191,4 +191,388 @@ Proof.
   split; [simpl; lia|].
   exists {| r_id := counter s + 1; r_ty := TyName (mir_name (MConst, b)); r_node := ALiteral (lit_value_string b v) idx |}, idx.
   split; [apply pushed_lookup|]. split; reflexivity.
+Qed.
+
+(* ---------------------------------------------------------------- shapes of the emitting paths *)
+Lemma emit_shape t n s w s1 :
+  (mdo id <- alloc; emit_scalar t id (n id)) s = Ok (w, s1) -> fst t <> MConst ->
+  s1 = pushed s (counter s + 1) {| r_id := counter s + 1; r_ty := TyName (mir_name t); r_node := n (counter s + 1) |}
+              (counter s + 1) (lits s)
+  /\ w = WScalar t (Some (counter s + 1)) None.
+Proof.
+  intros H Hc. unfold mbind, alloc, emit_scalar, put, ret, fail in H. cbn [counter store lits] in H.
+  destruct t as [m b]. destruct m; cbn [fst] in H, Hc; try congruence; inversion H; subst; split; reflexivity.
+Qed.
+
+Lemma emit2_shape t n x y s w s1 :
+  (mdo id <- alloc; mdo l <- need_id x; mdo r <- need_id y; emit_scalar t id (n l r)) s = Ok (w, s1) -> fst t <> MConst ->
+  exists i j, wid x = Some i /\ wid y = Some j
+    /\ s1 = pushed s (counter s + 1) {| r_id := counter s + 1; r_ty := TyName (mir_name t); r_node := n i j |}
+                   (counter s + 1) (lits s)
+    /\ w = WScalar t (Some (counter s + 1)) None.
+Proof.
+  intros H Hc. destruct (wid x) as [i|] eqn:Ex; [destruct (wid y) as [j|] eqn:Ey|].
+  - exists i, j. split; [reflexivity|]. split; [reflexivity|].
+    apply (emit_shape t (fun _ => n i j) s w s1); [|exact Hc].
+    unfold mbind in *. unfold alloc in *. rewrite !need_id_run, Ex in H. rewrite need_id_run, Ey in H. exact H.
+  - unfold mbind, alloc in H. rewrite !need_id_run, Ex in H. rewrite need_id_run, Ey in H. discriminate H.
+  - unfold mbind, alloc in H. rewrite need_id_run, Ex in H. discriminate H.
+Qed.
+Lemma emit1_shape t n x s w s1 :
+  (mdo id <- alloc; mdo c <- need_id x; emit_scalar t id (n c)) s = Ok (w, s1) -> fst t <> MConst ->
+  exists i, wid x = Some i
+    /\ s1 = pushed s (counter s + 1) {| r_id := counter s + 1; r_ty := TyName (mir_name t); r_node := n i |}
+                   (counter s + 1) (lits s)
+    /\ w = WScalar t (Some (counter s + 1)) None.
+Proof.
+  intros H Hc. destruct (wid x) as [i|] eqn:Ex.
+  - exists i. split; [reflexivity|]. apply (emit_shape t (fun _ => n i) s w s1); [|exact Hc].
+    unfold mbind in *. unfold alloc in *. rewrite need_id_run, Ex in H. exact H.
+  - unfold mbind, alloc in H. rewrite need_id_run, Ex in H. discriminate H.
+Qed.
+Lemma emit3_shape t n x y z s w s1 :
+  (mdo id <- alloc; mdo a <- need_id x; mdo b' <- need_id y; mdo c <- need_id z; emit_scalar t id (n a b' c)) s = Ok (w, s1) ->
+  fst t <> MConst ->
+  exists i j k, wid x = Some i /\ wid y = Some j /\ wid z = Some k
+    /\ s1 = pushed s (counter s + 1) {| r_id := counter s + 1; r_ty := TyName (mir_name t); r_node := n i j k |}
+                   (counter s + 1) (lits s)
+    /\ w = WScalar t (Some (counter s + 1)) None.
+Proof.
+  intros H Hc.
+  destruct (wid x) as [i|] eqn:Ex; [destruct (wid y) as [j|] eqn:Ey; [destruct (wid z) as [k|] eqn:Ez|]|].
+  - exists i, j, k. repeat (split; [reflexivity|]).
+    apply (emit_shape t (fun _ => n i j k) s w s1); [|exact Hc].
+    unfold mbind in *. unfold alloc in *. rewrite !need_id_run, Ex in H. rewrite !need_id_run, Ey in H. rewrite need_id_run, Ez in H. exact H.
+  - unfold mbind, alloc in H. rewrite !need_id_run, Ex in H. rewrite !need_id_run, Ey in H. rewrite need_id_run, Ez in H. discriminate H.
+  - unfold mbind, alloc in H. rewrite !need_id_run, Ex in H. rewrite need_id_run, Ey in H. discriminate H.
+  - unfold mbind, alloc in H. rewrite need_id_run, Ex in H. discriminate H.
+Qed.
+
+(* the wrapper of a related value always has an id, below the counter *)
+Lemma vrel_id φ ds s r t w : sim φ ds s -> vrel φ s r t w ->
+  exists ty id v, t = TS ty /\ w = WScalar ty (Some id) v /\ id <= counter s /\ arg_rel φ s r id
+                  /\ (match r with DN _ => fst ty <> MConst /\ v = None | DL b x => ty = (MConst, b) /\ v = Some x end).
+Proof.
+  intros Hs H. unfold vrel in H. destruct r, t; try contradiction.
+  - destruct H as (Hc & id & -> & Hz). exists t, id, None.
+    split; [reflexivity|]. split; [reflexivity|]. split; [destruct (sim_dom _ _ _ Hs _ _ Hz); lia|].
+    split; [exact Hz|]. split; [exact Hc | reflexivity].
+  - destruct H as (-> & id & -> & Hl). exists (MConst, b), id, (Some v).
+    split; [reflexivity|]. split; [reflexivity|]. split; [destruct Hl; lia|].
+    split; [exact Hl|]. split; reflexivity.
+Qed.
+
+Lemma principal_eq v : C02Rules.principal v = Denote.principal v.  Proof. reflexivity. Qed.
+
+(* the literal part of Denote.dbin is the plain-arithmetic specification *)
+Definition dlit (o : op) (ba : base) (x y : Z) : option (base * Z) :=
+  match exact2 o ba x y with
+  | Some r => Some r
+  | None => match o with
+            | ODiv => if y =? 0 then None else Some (ba, x / y)
+            | OMod => if y =? 0 then None else Some (ba, x mod y)
+            | _ => None
+            end
+  end.
+
+Lemma dlit_exact_bin o ba bb x y t r :
+  Denote.principal (spec2 o (MConst, ba) (MConst, bb)) = Some t -> dlit o ba x y = Some r -> exact_bin o ba bb x y = Some r.
+Proof.
+  intros Hp Hd. unfold exact_bin, dlit in *.
+  destruct o, ba, bb; cbn [spec2 mode_max base_eqb numeric mode_eqb negb andb orb Denote.principal compat] in *;
+    try discriminate Hp; try exact Hd; try discriminate Hd.
+Qed.
+
+(* ---------------------------------------------------------------- one simulation step *)
+Definition step_sim (φ : emap) (s : tstate) (ds1 : dstate) (s1 : tstate) (r : dref) (t : dty) (w : wrap) : Prop :=
+  exists φ1, grows φ φ1 /\ ScalarInv.ext s s1 /\ sim φ1 ds1 s1 /\ labels_ok ds1 /\ vrel φ1 s1 r t w.
+
+(* a new event recorded as a new operation *)
+Lemma event_step φ ds s k args nd t w s1 :
+  sim φ ds s -> labels_ok ds -> fst t <> MConst ->
+  s1 = pushed s (counter s + 1) {| r_id := counter s + 1; r_ty := TyName (mir_name t); r_node := nd |} (counter s + 1) (lits s) ->
+  w = WScalar t (Some (counter s + 1)) None ->
+  (forall φ1 s', grows φ φ1 -> ScalarInv.ext s s' ->
+     node_rel φ1 s' {| dn_kind := k; dn_args := args |} {| r_id := counter s + 1; r_ty := TyName (mir_name t); r_node := nd |}) ->
+  step_sim φ s (add_event ds k args) s1 (DN (ds_next ds)) (TS t) w.
+Proof.
+  intros Hs Hl Hc -> -> Hn.
+  set (rec := {| r_id := counter s + 1; r_ty := TyName (mir_name t); r_node := nd |}).
+  assert (Hg : grows φ ((ds_next ds, counter s + 1) :: φ)).
+  { apply grows_cons. intros l i Hz. apply (sim_dom _ _ _ Hs l i Hz). }
+  assert (He : ScalarInv.ext s (pushed s (counter s + 1) rec (counter s + 1) (lits s))) by (apply pushed_ext; lia).
+  exists ((ds_next ds, counter s + 1) :: φ). split; [exact Hg|]. split; [exact He|]. split.
+  - apply sim_push_event; [exact Hs | lia | lia | apply Hn; assumption | exact Hl].
+  - split; [apply labels_add; exact Hl|].
+    simpl. split; [exact Hc|]. exists (counter s + 1). split; [reflexivity|]. rewrite Z.eqb_refl. reflexivity.
+Qed.
+
+(* a literal result recorded as a new Literal operation *)
+Lemma literal_step φ ds s b v z w s1 t :
+  sim φ ds s -> labels_ok ds -> new_literal b z s = Ok (w, s1) -> lit_norm b z = v -> t = (MConst, b) ->
+  step_sim φ s ds s1 (DL b v) (TS t) w.
+Proof.
+  intros Hs Hl H Hv ->. destruct (new_literal_shape _ _ _ _ _ H) as (idx & l1 & -> & ->). rewrite Hv.
+  exists φ. split; [apply grows_refl|]. split; [apply pushed_ext; lia|]. split; [apply sim_push_plain; [exact Hs | lia | lia]|].
+  split; [exact Hl|]. simpl. split; [reflexivity|]. exists (counter s + 1). split; [reflexivity|]. apply lit_rec_pushed.
+Qed.
+
+Lemma dbin_lit_inv o ba x bb y t ds res ds1 :
+  dbin o (DL ba x, TS (MConst, ba)) (DL bb y, TS (MConst, bb)) ds = Some (res, ds1) ->
+  Denote.principal (spec2 o (MConst, ba) (MConst, bb)) = Some t ->
+  exists rb v, dlit o ba x y = Some (rb, v) /\ res = (DL rb v, TS t) /\ ds1 = ds.
+Proof.
+  intros H Hp. unfold dbin in H. cbn [snd fst] in H. rewrite Hp in H. unfold dlit.
+  destruct (exact2 o ba x y) as [[rb v]|] eqn:Ee.
+  - unfold dret in H. inversion H; subst. eauto.
+  - destruct o; try discriminate H; (destruct (y =? 0); [discriminate H|]); unfold dret in H; inversion H; subst; eauto.
+Qed.
+
+Lemma lit_true b : lit (MConst, b) = true.  Proof. reflexivity. Qed.
+Lemma lit_false t : fst t <> MConst -> lit t = false.
+Proof. unfold lit. destruct (fst t); simpl; congruence. Qed.
+
+Lemma dbin_sim φ ds s o ra ta rb tb wa wb w s1 res ds1 :
+  sim φ ds s -> labels_ok ds -> vrel φ s ra ta wa -> vrel φ s rb tb wb ->
+  do_binop G o wa wb s = Ok (w, s1) -> dbin o (ra, ta) (rb, tb) ds = Some (res, ds1) ->
+  step_sim φ s ds1 s1 (fst res) (snd res) w.
+Proof.
+  intros Hs Hl Ha Hb H Hd.
+  destruct (vrel_id _ _ _ _ _ _ Hs Ha) as (tya & ida & va & -> & -> & Hia & Haa & Hka).
+  destruct (vrel_id _ _ _ _ _ _ Hs Hb) as (tyb & idb & vb & -> & -> & Hib & Hab & Hkb).
+  assert (Hp : exists t, Denote.principal (spec2 o tya tyb) = Some t).
+  { unfold dbin in Hd. cbn [snd fst] in Hd. destruct (Denote.principal (spec2 o tya tyb)); [eauto | discriminate Hd]. }
+  destruct Hp as (t & Hp).
+  pose proof (bin_sim_all o tya tyb (value_of (WScalar tya (Some ida) va)) (value_of (WScalar tyb (Some idb) vb))) as Hspec.
+  assert (Hnode : lit tya && lit tyb = false ->
+                  step_sim φ s (add_event ds (KOp (opname o)) [ra; rb]) s1 (DN (ds_next ds)) (TS t) w).
+  { intros Hlit. unfold do_binop in H.
+    destruct (rule2v G o tya tyb (value_of (WScalar tya (Some ida) va)) (value_of (WScalar tyb (Some idb) vb)))
+      as [e | t0 v0 | name t0 roles | k | e | e]; cbn [bin_sim] in Hspec; try discriminate H; try contradiction.
+    - destruct Hspec as (_ & _ & _ & Hl2). rewrite Hlit in Hl2. discriminate Hl2.
+    - destruct Hspec as (Hr & Hc & Hn & Hp2 & _). subst roles name. rewrite principal_eq, Hp in Hp2. inversion Hp2; subst t0.
+      rewrite pick_left, pick_right in H.
+      destruct (emit2_shape _ (fun l r => ABinary (opname o) l r) _ _ _ _ _ H Hc) as (i & j & Ei & Ej & Es1 & Ew).
+      cbn [wid] in Ei, Ej. inversion Ei; inversion Ej; subst i j.
+      eapply event_step; [exact Hs | exact Hl | exact Hc | exact Es1 | exact Ew |].
+      intros φ1 s' Hg He. simpl. split; [reflexivity|]. split; eapply arg_rel_ext; eauto. }
+  destruct ra as [la | ba x]; destruct rb as [lb | bb y].
+  - destruct Hka as [Hca _]. unfold dbin in Hd. cbn [snd fst] in Hd. rewrite Hp in Hd. unfold dbind_ in Hd. rewrite node_run in Hd.
+    unfold dret in Hd. inversion Hd; subst res ds1. apply Hnode. rewrite (lit_false _ Hca). reflexivity.
+  - destruct Hka as [Hca _]. unfold dbin in Hd. cbn [snd fst] in Hd. rewrite Hp in Hd. unfold dbind_ in Hd. rewrite node_run in Hd.
+    unfold dret in Hd. inversion Hd; subst res ds1. apply Hnode. rewrite (lit_false _ Hca). reflexivity.
+  - destruct Hkb as [Hcb _]. unfold dbin in Hd. cbn [snd fst] in Hd. rewrite Hp in Hd. unfold dbind_ in Hd. rewrite node_run in Hd.
+    unfold dret in Hd. inversion Hd; subst res ds1. apply Hnode. rewrite (lit_false _ Hcb). apply andb_false_r.
+  - (* both literal *)
+    destruct Hka as [-> ->]. destruct Hkb as [-> ->].
+    destruct (dbin_lit_inv _ _ _ _ _ _ _ _ _ Hd Hp) as (rb0 & v & Hdl & -> & ->).
+    pose proof (dlit_exact_bin _ _ _ _ _ _ _ Hp Hdl) as He.
+    destruct (fold_exact_all _ _ _ _ _ _ _ He) as (val & Hr & Hz).
+    unfold do_binop in H. cbn [value_of] in H, Hspec. unfold L in Hr. rewrite Hr in H, Hspec. cbn [bin_sim] in Hspec.
+    destruct Hspec as (_ & _ & Hp2 & _). rewrite principal_eq, Hp in Hp2. inversion Hp2; subst t.
+    rewrite Hz in H. cbn [snd fst] in H |- *.
+    eapply literal_step; [exact Hs | exact Hl | exact H | eapply exact_bin_norm; eauto | reflexivity].
+Qed.
+
+Lemma getv_inv (dρ : denv) x ds res ds1 : getv dρ x ds = Some (res, ds1) -> ds1 = ds /\ assoc x dρ = Some (BV (fst res) (snd res)).
+Proof.
+  unfold getv. destruct (assoc x dρ) as [[r t | l rt]|]; try discriminate.
+  unfold dret. intros H. inversion H; subst. auto.
+Qed.
+
+Lemma get_both φ s ρ dρ x ds res ds1 :
+  env_rel φ s ρ dρ -> getv dρ x ds = Some (res, ds1) ->
+  ds1 = ds /\ exists w, get_wrap ρ x s = Ok (w, s) /\ vrel φ s (fst res) (snd res) w.
+Proof.
+  intros He H. destruct (getv_inv _ _ _ _ _ H) as [-> Ha]. split; [reflexivity|].
+  destruct (env_rel_get _ _ _ _ _ _ _ He Ha) as (w & Hw & Hv). exists w. split; [|exact Hv].
+  unfold get_wrap. rewrite Hw. reflexivity.
+Qed.
+
+Lemma step_sim_same φ ds s r t w : sim φ ds s -> labels_ok ds -> vrel φ s r t w -> step_sim φ s ds s r t w.
+Proof. intros Hs Hl Hv. exists φ. split; [apply grows_refl|]. split; [apply ScalarInv.ext_refl|]. auto. Qed.
+
+(* one statement of the scalar fragment *)
+Lemma rhs_sim φ ds s ρ dρ r w s1 res ds1 :
+  eval_rhs G ρ r s = Ok (w, s1) -> drhs dρ r ds = Some (res, ds1) -> in_fragment r = true ->
+  sim φ ds s -> labels_ok ds -> env_rel φ s ρ dρ ->
+  step_sim φ s ds1 s1 (fst res) (snd res) w.
+Proof.
+  intros H Hd Hfr Hs Hl He. destruct r; try discriminate Hfr.
+  - (* RLit *)
+    cbn [drhs] in Hd. unfold dret in Hd. inversion Hd; subst. cbn [eval_rhs fst snd] in H |- *.
+    eapply literal_step; [exact Hs | exact Hl | exact H | reflexivity | reflexivity].
+  - (* RInput *)
+    destruct t as [[m b0]|elt sz]; [|discriminate Hfr].
+    cbn [drhs] in Hd. unfold dbind_ in Hd. rewrite node_run in Hd. unfold dret in Hd. inversion Hd; subst. cbn [fst snd dty_of_ity].
+    cbn [eval_rhs mk_input] in H. destruct m; unfold mbind, alloc, put, ret, fail in H; cbn [counter store lits] in H;
+      try discriminate H; inversion H; subst;
+      (eapply (event_step φ ds s (KInput name) [] (AInput name party doc) (_, b0)); [exact Hs | exact Hl | discriminate | reflexivity | reflexivity |]);
+      intros φ1 s' _ _; reflexivity.
+  - (* RRandom *)
+    cbn [drhs] in Hd. unfold dbind_ in Hd. rewrite node_run in Hd. unfold dret in Hd. inversion Hd; subst. cbn [fst snd].
+    cbn [eval_rhs] in H.
+    destruct (emit_shape (MSecret, b) (fun _ => ARandom) s w s1 H) as [Es Ew]; [discriminate|].
+    eapply (event_step φ ds s KRandom [] ARandom (MSecret, b)); [exact Hs | exact Hl | discriminate | exact Es | exact Ew |].
+    intros φ1 s' _ _. exact I.
+  - (* RBin *)
+    cbn [drhs] in Hd. unfold dbind_ in Hd.
+    destruct (getv dρ a ds) as [[xa dsa]|] eqn:Ga; [|discriminate Hd].
+    destruct (get_both _ _ _ _ _ _ _ _ He Ga) as (-> & wa & Hga & Hva).
+    destruct (getv dρ b ds) as [[xb dsb]|] eqn:Gb; [|discriminate Hd].
+    destruct (get_both _ _ _ _ _ _ _ _ He Gb) as (-> & wb & Hgb & Hvb).
+    cbn [eval_rhs] in H. unfold mbind in H. rewrite Hga, Hgb in H.
+    destruct xa as [ra ta]. destruct xb as [rb tb]. cbn [fst snd] in Hva, Hvb.
+    exact (dbin_sim φ ds s o ra ta rb tb wa wb w s1 res ds1 Hs Hl Hva Hvb H Hd).
+  - (* RNot *)
+    cbn [drhs] in Hd. unfold dbind_ in Hd.
+    destruct (getv dρ a ds) as [[xa dsa]|] eqn:Ga; [|discriminate Hd].
+    destruct (get_both _ _ _ _ _ _ _ _ He Ga) as (-> & wa & Hga & Hva).
+    cbn [eval_rhs] in H. unfold mbind in H. rewrite Hga in H.
+    destruct xa as [ra ta]. cbn [fst snd] in Hva.
+    destruct (vrel_id _ _ _ _ _ _ Hs Hva) as (tya & ida & va & -> & -> & Hia & Haa & Hka).
+    pose proof (un_sim_all UInvert tya (value_of (WScalar tya (Some ida) va))) as Hspec.
+    unfold do_unop in H.
+    destruct ra as [la | ba x].
+    + (* an event: a Not operation *)
+      destruct Hka as [Hca ->]. cbn [fst snd] in Hd. rewrite node_run in Hd. unfold dret in Hd. inversion Hd; subst. cbn [fst snd].
+      destruct (classify (dispatch_method G "__invert__" (operand tya (value_of (WScalar tya (Some ida) None)) 0) []))
+        as [e | t0 v0 | name t0 roles | k | e | e]; cbn [un_sim] in Hspec; try discriminate H.
+      * destruct Hspec as (_ & _ & _ & Hl2). rewrite (lit_false _ Hca) in Hl2. discriminate Hl2.
+      * destruct Hspec as (Hr & Hc & Hp & _ & Hn). subst roles name. rewrite pick_child in H.
+        destruct (emit1_shape _ (fun c => AUnary "Not" c) _ _ _ _ H Hc) as (i & Ei & Es1 & Ew). cbn [wid] in Ei. inversion Ei; subst i.
+        assert (t0 = tya). { unfold spec1 in Hp. destruct (base_eqb (snd tya) BBool); inversion Hp; reflexivity. } subst t0.
+        eapply event_step; [exact Hs | exact Hl | exact Hc | exact Es1 | exact Ew |].
+        intros φ1 s' Hg He'. simpl. split; [reflexivity|]. eapply arg_rel_ext; eauto.
+      * exfalso. unfold spec1 in Hspec. destruct (base_eqb (snd tya) BBool); discriminate Hspec.
+    + (* a literal: folded *)
+      destruct Hka as [-> ->]. cbn [value_of] in H, Hspec.
+      destruct ba.
+      * (* boolean literal *)
+        cbn [fst snd] in Hd. unfold dret in Hd. inversion Hd; subst. cbn [fst snd].
+        pose proof (fold_not x) as Hn. unfold L in Hn. unfold G in H. rewrite Hn in H. cbn [z_of_value snd] in H.
+        eapply literal_step; [exact Hs | exact Hl | exact H | | reflexivity].
+        unfold tb. simpl. destruct (x =? 0); reflexivity.
+      * (* ~ on an integer literal: the denotation makes an event, the tracer rejects or folds; excluded by the rules *)
+        cbn [fst snd] in Hd. rewrite node_run in Hd. unfold dret in Hd. inversion Hd; subst.
+        destruct (classify (dispatch_method G "__invert__" (operand (MConst, BInt) x 0) [])) as [e | t0 v0 | name t0 roles | k | e | e];
+          cbn [un_sim] in Hspec; try discriminate H.
+        -- destruct Hspec as (_ & _ & Hp & _). discriminate Hp.
+        -- destruct Hspec as (_ & _ & Hp & _). discriminate Hp.
+        -- discriminate Hspec.
+      * cbn [fst snd] in Hd. rewrite node_run in Hd. unfold dret in Hd. inversion Hd; subst.
+        destruct (classify (dispatch_method G "__invert__" (operand (MConst, BUInt) x 0) [])) as [e | t0 v0 | name t0 roles | k | e | e];
+          cbn [un_sim] in Hspec; try discriminate H.
+        -- destruct Hspec as (_ & _ & Hp & _). discriminate Hp.
+        -- destruct Hspec as (_ & _ & Hp & _). discriminate Hp.
+        -- discriminate Hspec.
+  - (* RIfElse *)
+    cbn [drhs] in Hd. unfold dbind_ in Hd.
+    destruct (getv dρ c ds) as [[xc dsc]|] eqn:Gc; [|discriminate Hd].
+    destruct (get_both _ _ _ _ _ _ _ _ He Gc) as (-> & wc & Hgc & Hvc).
+    destruct (getv dρ a ds) as [[xa dsa]|] eqn:Ga; [|discriminate Hd].
+    destruct (get_both _ _ _ _ _ _ _ _ He Ga) as (-> & wa & Hga & Hva).
+    destruct (getv dρ b ds) as [[xb dsb]|] eqn:Gb; [|discriminate Hd].
+    destruct (get_both _ _ _ _ _ _ _ _ He Gb) as (-> & wb & Hgb & Hvb).
+    cbn [eval_rhs] in H. unfold mbind in H. rewrite Hgc, Hga, Hgb in H.
+    destruct xc as [rc tc]. destruct xa as [ra ta]. destruct xb as [rb tb]. cbn [fst snd] in Hvc, Hva, Hvb.
+    destruct (vrel_id _ _ _ _ _ _ Hs Hvc) as (tyc & idc & vc & -> & -> & Hic & Hac & Hkc).
+    destruct (vrel_id _ _ _ _ _ _ Hs Hva) as (tya & ida & va & -> & -> & Hia & Haa & Hka).
+    destruct (vrel_id _ _ _ _ _ _ Hs Hvb) as (tyb & idb & vb & -> & -> & Hib & Hab & Hkb).
+    cbn [fst snd] in Hd. destruct (Denote.principal (spec_ifelse tyc tya tyb)) as [t|] eqn:Hp; [|discriminate Hd].
+    rewrite node_run in Hd. unfold dret in Hd. inversion Hd; subst. cbn [fst snd].
+    pose proof (if_sim_all tyc tya tyb) as Hspec. unfold do_ifelse in H.
+    destruct (rule_ifelse G tyc tya tyb) as [e | t0 v0 | name t0 roles | k | e | e]; cbn [if_sim] in Hspec; try discriminate H.
+    destruct Hspec as (Hr & Hc & Hp2 & Hn). subst roles name. rewrite Hp2 in Hp. inversion Hp; subst t0.
+    rewrite pick_this, pick_arg0, pick_arg1 in H.
+    destruct (emit3_shape _ (fun a b c => AIfElse a b c) _ _ _ _ _ _ H Hc) as (i & j & k & Ei & Ej & Ek & Es1 & Ew).
+    cbn [wid] in Ei, Ej, Ek. inversion Ei; inversion Ej; inversion Ek; subst i j k.
+    eapply event_step; [exact Hs | exact Hl | exact Hc | exact Es1 | exact Ew |].
+    intros φ1 s' Hg He'. simpl. repeat split; eapply arg_rel_ext; eauto.
+  - (* RToPublic *)
+    cbn [drhs] in Hd. unfold dbind_ in Hd.
+    destruct (getv dρ a ds) as [[xa dsa]|] eqn:Ga; [|discriminate Hd].
+    destruct (get_both _ _ _ _ _ _ _ _ He Ga) as (-> & wa & Hga & Hva).
+    cbn [eval_rhs] in H. unfold mbind in H. rewrite Hga in H.
+    destruct xa as [ra ta]. cbn [fst snd] in Hva.
+    destruct (vrel_id _ _ _ _ _ _ Hs Hva) as (tya & ida & va & -> & -> & Hia & Haa & Hka).
+    pose proof (un_sim_all UToPublic tya (value_of (WScalar tya (Some ida) va))) as Hspec.
+    unfold do_unop in H.
+    destruct tya as [m b0]. destruct m.
+    + (* a literal: to_public answers the value itself *)
+      cbn [fst snd] in Hd. unfold dret in Hd. inversion Hd; subst. cbn [fst snd].
+      destruct (classify (dispatch_method G "to_public" (operand (MConst, b0) (value_of (WScalar (MConst, b0) (Some ida) va)) 0) []))
+        as [e | t0 v0 | name t0 roles | k | e | e]; cbn [un_sim] in Hspec; try discriminate H.
+      * destruct Hspec as (_ & _ & Hp & _). discriminate Hp.
+      * destruct Hspec as (_ & _ & Hp & _). discriminate Hp.
+      * unfold ret in H. inversion H; subst. apply step_sim_same; assumption.
+    + cbn [fst snd] in Hd. unfold dret in Hd. inversion Hd; subst. cbn [fst snd].
+      destruct (classify (dispatch_method G "to_public" (operand (MPublic, b0) (value_of (WScalar (MPublic, b0) (Some ida) va)) 0) []))
+        as [e | t0 v0 | name t0 roles | k | e | e]; cbn [un_sim] in Hspec; try discriminate H.
+      * destruct Hspec as (_ & _ & Hp & _). discriminate Hp.
+      * destruct Hspec as (_ & _ & Hp & _). discriminate Hp.
+      * unfold ret in H. inversion H; subst. apply step_sim_same; assumption.
+    + (* secret: a Reveal operation *)
+      cbn [fst snd] in Hd. rewrite node_run in Hd. unfold dret in Hd. inversion Hd; subst. cbn [fst snd].
+      destruct (classify (dispatch_method G "to_public" (operand (MSecret, b0) (value_of (WScalar (MSecret, b0) (Some ida) va)) 0) []))
+        as [e | t0 v0 | name t0 roles | k | e | e]; cbn [un_sim] in Hspec; try discriminate H.
+      * destruct Hspec as (Hc & _ & _ & Hl2). discriminate Hl2.
+      * destruct Hspec as (Hr & Hc & Hp & _ & Hn). subst roles name. rewrite pick_child in H.
+        destruct (emit1_shape _ (fun c => AUnary "Reveal" c) _ _ _ _ H Hc) as (i & Ei & Es1 & Ew). cbn [wid] in Ei. inversion Ei; subst i.
+        assert (t0 = (MPublic, b0)) by (cbn in Hp; inversion Hp; reflexivity). subst t0.
+        eapply event_step; [exact Hs | exact Hl | exact Hc | exact Es1 | exact Ew |].
+        intros φ1 s' Hg He'. simpl. split; [reflexivity|]. eapply arg_rel_ext; eauto.
+      * discriminate Hspec.
+  - (* RRAdd *)
+    cbn [drhs] in Hd. unfold dbind_ in Hd.
+    destruct (getv dρ a ds) as [[xa dsa]|] eqn:Ga; [|discriminate Hd].
+    destruct (get_both _ _ _ _ _ _ _ _ He Ga) as (-> & wa & Hga & Hva).
+    cbn [eval_rhs] in H. unfold mbind at 1 in H. rewrite Hga in H.
+    destruct xa as [ra ta]. cbn [fst snd] in Hva.
+    destruct (vrel_id _ _ _ _ _ _ Hs Hva) as (tya & ida & va & -> & -> & Hia & Haa & Hka).
+    cbn [fst snd] in Hd. destruct tya as [m b0].
+    destruct (numeric_base b0) eqn:En; [|discriminate H].
+    unfold mbind in H. destruct (new_literal b0 k s) as [[l s2]| |] eqn:El; try discriminate H.
+    assert (Hn : lit_norm b0 k = k) by (destruct b0; simpl in *; try discriminate En; reflexivity).
+    destruct (literal_step φ ds s b0 k k l s2 (MConst, b0) Hs Hl El Hn eq_refl) as (φ2 & Hg2 & He2 & Hs2 & Hl2 & Hvl).
+    assert (Hva2 : vrel φ2 s2 ra (TS (m, b0)) (WScalar (m, b0) (Some ida) va)) by (eapply vrel_ext; eauto).
+    destruct (dbin_sim φ2 ds s2 OAdd ra (TS (m, b0)) (DL b0 k) (TS (MConst, b0)) _ _ w s1 res ds1 Hs2 Hl2 Hva2 Hvl H Hd)
+      as (φ3 & Hg3 & He3 & Hs3 & Hl3 & Hv3).
+    exists φ3. split; [intros l0 i Hz; apply Hg3, Hg2, Hz|]. split; [eapply ScalarInv.ext_trans; eauto|]. auto.
+Qed.
+
+(* all statements *)
+Lemma exec_sim : forall ss f1 f2 ρ dρ s ds φ ρ' s' dρ' ds',
+  exec G f1 ρ ss s = Ok (ρ', s') -> dexec f2 dρ ss ds = Some (dρ', ds') -> scalar_fragment ss = true ->
+  sim φ ds s -> labels_ok ds -> env_rel φ s ρ dρ ->
+  exists φ', grows φ φ' /\ sim φ' ds' s' /\ labels_ok ds' /\ env_rel φ' s' ρ' dρ'.
+Proof.
+  induction ss as [|st ss IH]; intros f1 f2 ρ dρ s ds φ ρ' s' dρ' ds' H Hd Hfr Hs Hl He.
+  - destruct f1; [discriminate H|]. destruct f2; [discriminate Hd|]. simpl in H, Hd.
+    unfold ret in H. unfold dret in Hd. inversion H; inversion Hd; subst. exists φ. split; [apply grows_refl | auto].
+  - destruct f1; [discriminate H|]. destruct f2; [discriminate Hd|].
+    destruct st as [x r | f ps rt body res]; [|discriminate Hfr].
+    cbn [scalar_fragment] in Hfr. apply andb_prop in Hfr. destruct Hfr as [Hr Hrest].
+    cbn [exec] in H. unfold mbind in H. destruct (eval_rhs G ρ r s) as [[w s1]| |] eqn:Ev; try discriminate H.
+    cbn [dexec] in Hd. unfold dbind_ in Hd. destruct (drhs dρ r ds) as [[v ds1]|] eqn:Dv; [|discriminate Hd].
+    destruct (rhs_sim _ _ _ _ _ _ _ _ _ _ Ev Dv Hr Hs Hl He) as (φ1 & Hg1 & He1 & Hs1 & Hl1 & Hv1).
+    assert (He' : env_rel φ1 s1 ((x, BWrap w) :: ρ) ((x, BV (fst v) (snd v)) :: dρ)).
+    { constructor; [|eapply env_rel_ext; eauto]. split; [reflexivity|]. exists w, (fst v), (snd v). auto. }
+    destruct (IH _ _ _ _ _ _ _ _ _ _ _ H Hd Hrest Hs1 Hl1 He') as (φ2 & Hg2 & Hs2 & Hl2 & He2).
+    exists φ2. split; [intros l i Hz; apply Hg2, Hg1, Hz | auto].
+Qed.
+
+(* ---------------------------------------------------------------- the program-level statement *)
+Definition ds0 : dstate := {| ds_next := 1; ds_nodes := []; ds_funs := [] |}.
+
+Theorem store_is_a_faithful_image : forall ss f1 f2 ρ s dρ ds,
+  exec G f1 [] ss init_state = Ok (ρ, s) -> dexec f2 [] ss ds0 = Some (dρ, ds) -> scalar_fragment ss = true ->
+  exists φ, sim φ ds s /\ env_rel φ s ρ dρ.
+Proof.
+  intros ss f1 f2 ρ s dρ ds H Hd Hfr.
+  assert (Hs0 : sim [] ds0 init_state).
+  { constructor; simpl; intros; try discriminate. }
+  assert (Hl0 : labels_ok ds0) by (intros l nd Hl; simpl in Hl; discriminate Hl).
+  assert (He0 : env_rel [] init_state [] []) by constructor.
+  destruct (exec_sim _ _ _ _ _ _ _ _ _ _ _ _ H Hd Hfr Hs0 Hl0 He0) as (φ & _ & Hs & _ & He). eauto.
 Qed.
